@@ -475,6 +475,24 @@ def run(case: dict) -> Outcome:
             else:
                 detail = f'{df[0]}: {df[1]!r} -> {df[2]!r}'
             out.violate('template-modified:' + pth, f'collapse#{min(per_template[ti], 2)}', f'collapsing placement {pi} changed the cached template: {detail}')
+        # (1b) nothing mutable is shared between the cached template and what was added to the target, and the IDs of
+        #      the target stay unique per kind (the template's IDs start at 1 like the target's)
+        if per_template[ti] <= 2:
+            from machines.vmf_copy import walk_mutables
+            wa = walk_mutables([f.vmf.spawn] + list(f.vmf.entities) + list(f.vmf.brushes))
+            wc = walk_mutables(list(target.entities[ne:]) + list(target.brushes[nb:]))
+            for key in wa:
+                if key in wc:
+                    pa, _o = wa[key]
+                    pc, ob = wc[key]
+                    out.violate('template-aliased:' + G.generic_path(pc or pa), type(ob).__name__,
+                                f'{type(ob).__name__} object shared between template{pa} and collapsed copy{pc} (placement {pi})')
+                    break
+            out.stats['alias_walks'] += 1
+        for kind, ids in (('entity', [e.id for e in target.entities]), ('solid', [s.id for e in [target.spawn] + list(target.entities) for s in e.solids] + [s.id for s in target.brushes if s not in target.spawn.solids]),
+                          ('face', [sd.id for s in target.brushes for sd in s.sides] + [sd.id for e in target.entities for s in e.solids for sd in s.sides])):
+            if len(ids) != len(set(ids)) or any(i <= 0 for i in ids):
+                out.violate('ids-not-unique', kind, f'after collapsing placement {pi} the target holds {kind} IDs {sorted(ids)}')
         adds = _additions(target, ne, nb)
         # (4) order independence: same additions as when collapsed alone into a fresh map with a fresh template
         try:
